@@ -89,6 +89,8 @@ type Gen struct {
 	grants map[string]bool
 	monik  int
 	tsid   uint64
+	// SeqHeights: WRKChain heights are mostly consecutive (several chains then share height values)
+	SeqHeights bool
 }
 
 func NewGen(e *Env) *Gen { return &Gen{E: e, grants: map[string]bool{}} }
@@ -167,7 +169,11 @@ func (g *Gen) BeaconRegisterMsg(owner lab.Acct) *beacontypes.MsgRegisterBeacon {
 // wrkHeight picks a height relative to the last recorded one: mostly next/gaps, sometimes stale.
 func (g *Gen) wrkHeight(last uint64) uint64 {
 	r := g.E.R
-	switch r.Weighted([]int{50, 20, 8, 8, 4, 2, 2}) {
+	w := []int{50, 20, 8, 8, 4, 2, 2}
+	if g.SeqHeights {
+		w = []int{86, 2, 5, 5, 0, 1, 1}
+	}
+	switch r.Weighted(w) {
 	case 0:
 		return last + 1
 	case 1:
